@@ -84,6 +84,21 @@ class Sim:
             self.crash_tag = tag
             raise Crash(tag)
 
+    def operator_brings_lab_results(self):
+        """prospective mode: between two invocations the lab runs the proposed batch and the operator hands the next
+        invocation a screen that contains those results - one more batch of results for every batch whose plates are
+        all proposed. The same command line with the same file is only repeated while a batch is unfinished."""
+        if self.cfg["mode"] != "prospective":
+            return
+        done = self.completed_steps()
+        b = self.cfg["batch"]
+        n_full = 0
+        while all((n_full, j) in done for j in range(b)):
+            n_full += 1
+        screen = os.path.join(self.root, "input.screen.h5")
+        with open(screen, "w") as f:
+            json.dump({"unobserved": list(range(self.cfg["plates"])), "lineage": "root%d" % self.cfg["plates"], "lab_results_of_batches": n_full}, f)
+
     def completed_steps(self):
         out = set()
         for p in globmod.glob(os.path.join(self.outdir, "iter_*", "plate_*")):
@@ -352,6 +367,7 @@ class Driver:
 
     def invoke(self, sim):
         """one invocation of the script's main()"""
+        sim.operator_brings_lab_results()
         argv = ["batchie.py", "--mode", sim.cfg["mode"], "--screen", sim.screen, "--batch-size", str(sim.cfg["batch"]), "--outdir", sim.outdir, "--n_chains", str(sim.cfg["n_chains"])]
         old = sys.argv
         sys.argv = argv
@@ -640,6 +656,7 @@ class LogSim:
         return out
 
     completed_steps = Sim.completed_steps
+    operator_brings_lab_results = Sim.operator_brings_lab_results
 
 
 def subprocess_scenarios(rec, rng, shard, nshards):
@@ -661,6 +678,7 @@ def subprocess_scenarios(rec, rng, shard, nshards):
         env.update(VF_ROOT=vf_root, VF_C19_CFG=json.dumps(cfg), VF_C19_LOG=os.path.join(root, "launch.log"), VF_C19_COUNTER=os.path.join(root, "hits"), VF_C19_ROOT=root, VF_C19_KILL_AT=str(kill_at or 0), VF_C19_REPO=repoimport.REPO, PATH=stub_dir + os.pathsep + env.get("PATH", ""))
         if os.path.exists(env["VF_C19_COUNTER"]):
             os.remove(env["VF_C19_COUNTER"])
+        LogSim(root, cfg, env["VF_C19_LOG"]).operator_brings_lab_results()
         p = subprocess.run([sys.executable, "-B", script, "--mode", cfg["mode"], "--screen", os.path.join(root, "input.screen.h5"), "--batch-size", str(cfg["batch"]), "--outdir", os.path.join(root, "out"), "--n_chains", str(cfg["n_chains"])], env=env, stdout=subprocess.PIPE, stderr=subprocess.PIPE, timeout=300)
         hits = int(open(env["VF_C19_COUNTER"]).read()) if os.path.exists(env["VF_C19_COUNTER"]) else 0
         err = p.stderr.decode("utf-8", "replace")
